@@ -1,7 +1,8 @@
 """C17 (kernel) — loopless._add_cycle_free: the bounds it imposes, and the lemma 'no reversal, no growth in magnitude'.
 
-Per reaction with starting flux v (finite, within the reaction's bounds): boundary -> bounds (v, v);
-internal, v >= 0 -> (max(0, lb), min(v, ub));  internal, v < 0 -> (max(v, lb), min(0, ub)).
+Per reaction with finite starting flux v0: boundary -> bounds (v0, v0); internal: v = v0 clipped into [lb, ub] (the solver may
+report a flux outside the bounds within its tolerance - without the clip lb' > ub' and the bounds setter raised: defect found by
+the C05/C13 bounded drivers, repaired in /repo), then v >= 0 -> (max(0, lb), min(v, ub));  v < 0 -> (max(v, lb), min(0, ub)).
 """
 import z3
 import cobra  # noqa
@@ -49,11 +50,15 @@ ZERO = VReal(0, 0)
 def new_bounds(E, r):
     """the documented bounds of reaction r given its starting flux"""
     dom, val = fl(E)
-    v = VReal(0, val[idarr(E, E.s0)[r]])
+    v0 = VReal(0, val[idarr(E, E.s0)[r]])
     lb, ub = C1.lbub(E, E.s0, r)
     bnd = E.eng.heap_arr(E.s0, "is_boundary")[r]
-    lo = VReal(z3.If(bnd, v.k, z3.If(v.v >= 0, xmax(ZERO, lb).k, xmax(v, lb).k)), z3.If(bnd, v.v, z3.If(v.v >= 0, xmax(ZERO, lb).v, xmax(v, lb).v)))
-    hi = VReal(z3.If(bnd, v.k, z3.If(v.v >= 0, xmin(v, ub).k, xmin(ZERO, ub).k)), z3.If(bnd, v.v, z3.If(v.v >= 0, xmin(v, ub).v, xmin(ZERO, ub).v)))
+    # internal reactions: the start is first clipped into the reaction's bounds (solver tolerance), boundary ones keep it
+    vc = xmin(xmax(v0, lb), ub)
+    v = VReal(z3.If(bnd, v0.k, vc.k), z3.If(bnd, v0.v, vc.v))
+    nonneg = z3.Not(xr_lt(v, ZERO))
+    lo = VReal(z3.If(bnd, v.k, z3.If(nonneg, xmax(ZERO, lb).k, xmax(v, lb).k)), z3.If(bnd, v.v, z3.If(nonneg, xmax(ZERO, lb).v, xmax(v, lb).v)))
+    hi = VReal(z3.If(bnd, v.k, z3.If(nonneg, xmin(v, ub).k, xmin(ZERO, ub).k)), z3.If(bnd, v.v, z3.If(nonneg, xmin(v, ub).v, xmin(ZERO, ub).v)))
     return lo, hi
 
 
@@ -84,7 +89,7 @@ def _pre(E):
     lb, ub = VReal(lbk[r], lbv[r]), VReal(ubk[r], ubv[r])
     return z3.And(WF(E, E.s0, rx(E)),
                   FA([j], z3.Implies(z3.And(0 <= j, j < n),
-                                     z3.And(z3.Select(dom, idA[r]), xr_le(lb, v), xr_le(v, ub), lb.k != 1, ub.k != -1,
+                                     z3.And(z3.Select(dom, idA[r]), xr_le(lb, ub), lb.k != 1, ub.k != -1,
                                             C1.vars_distinct(r), C1.model_of(E, E.s0, r) != NULL)), patterns=[e[j]]))
 
 
